@@ -1,9 +1,101 @@
 import LinfaSpec.Model.Proto
+import LinfaSpec.Model.Scalar
+import LinfaSpec.Model.Scaling
 
 namespace LinfaSpec.Drv.C16
-open LinfaSpec.Proto
+open LinfaSpec.Proto LinfaSpec.Scaling
 
-/-- stub: replaced when the property's model lands -/
-def handle (_toks : List String) : String := "bad-op"
+/-- `f64::EPSILON` = 2^-52 -/
+def epsF : Float := Float.ofBits 0x3CB0000000000000
+
+def errName : FitErr → String
+  | .notEnoughSamples => "NotEnoughSamples"
+  | .flippedMinMaxRange => "FlippedMinMaxRange"
+
+def tilde (x : Float) : String := "~" ++ showF64c x
+
+/-- `approx` marks the tokens compared with a tolerance (`~`), `exact` the bit-compared ones -/
+def showScaler (approx : Bool) (sc : Scaler Float) (y : Option (List (List Float))) : String :=
+  let f := if approx then tilde else showF64c
+  match y with
+  | none => "panic"
+  | some y => s!"ok off={showList showF64c sc.offsets} sc={showList f sc.scales} y={showList2 f y}"
+
+def finish (approx : Bool) (px : Nat) (x : List (List Float)) :
+    Except FitErr (Scaler Float) → String
+  | .error e => "err " ++ errName e
+  | .ok sc => showScaler approx sc (transform sc px x)
+
+def handleStd (toks : List String) : Option String := do
+  let wm ← argNat toks "wm"; let ws ← argNat toks "ws"
+  let pf ← argNat toks "pf"; let px ← argNat toks "px"
+  let fit ← argF64s2 toks "fit"; let x ← argF64s2 toks "x"
+  if wm > 1 ∨ ws > 1 then none
+  else some (finish true px x (fitStandard epsF pf fit (wm == 1) (ws == 1)))
+
+def handleMinMax (toks : List String) : Option String := do
+  let lo ← argF64 toks "lo"; let hi ← argF64 toks "hi"
+  let pf ← argNat toks "pf"; let px ← argNat toks "px"
+  let fit ← argF64s2 toks "fit"; let x ← argF64s2 toks "x"
+  some (finish false px x (fitMinMax epsF pf fit lo hi))
+
+def handleMaxAbs (toks : List String) : Option String := do
+  let pf ← argNat toks "pf"; let px ← argNat toks "px"
+  let fit ← argF64s2 toks "fit"; let x ← argF64s2 toks "x"
+  some (finish false px x (fitMaxAbs epsF pf fit))
+
+def parseKind : String → Option NormKind
+  | "l1" => some .l1 | "l2" => some .l2 | "max" => some .max | _ => none
+
+def handleNorm (toks : List String) : Option String := do
+  let k ← (arg toks "kind").bind parseKind
+  let x ← argF64s2 toks "x"
+  some ("ok y=" ++ showList2 showF64c (normTransform k x))
+
+/-- whitening: the matrix `W` found by the real SVD / Cholesky travels in the
+request (external, validated by its contract in the harness); the model supplies
+the emptiness guard, the mean and the transform. -/
+def handleWhiten (toks : List String) : Option String := do
+  let pf ← argNat toks "pf"
+  let fit ← argF64s2 toks "fit"; let x ← argF64s2 toks "x"
+  let W ← argF64s2 toks "W"
+  match whitenFit (ε := Unit) (fun _ => .ok W) pf fit with
+  | .error (.inl e) => some ("err " ++ errName e)
+  | .error (.inr _) => none
+  | .ok (mean, W) =>
+    -- backward-error scale of the matrix product (see harness): p * max|W| * max|x - mean|
+    let wmax := W.flatten.foldl (fun a v => if a < absS v then absS v else a) 0
+    let cmax := (x.map fun r => List.zipWith (fun v m => absS (v - m)) r mean).flatten.foldl
+      (fun a c => if a < c then c else a) 0
+    let kappa := Float.ofNat pf * wmax * cmax
+    let kappa := if kappa > 0 then kappa else 1
+    let y := (whitenTransform mean W x).map fun r => r.map (· / kappa)
+    some s!"ok mean={showList showF64c mean} kappa={showF64c kappa} y={showList2 tilde y}"
+
+/-- dataset form: records are abstracted to their width; `pout` is the width of
+the transformed records, targets are `n × t` tags, weights a list of tags. -/
+def handleDs (toks : List String) : Option String := do
+  let pout ← argNat toks "pout"; let t ← argNat toks "t"
+  let tg ← argNats2 toks "tg"; let w ← argNats toks "w"
+  let fnm ← argNats toks "fn"; let tn ← argNats toks "tn"
+  let fails ← argNat toks "fpanic"
+  let ds : DS Unit (List (List Nat)) (List Nat) :=
+    { records := (), targets := tg, weights := w,
+      featureNames := fnm.map toString, targetNames := tn.map toString }
+  match transformDataset (R' := Nat) (fun _ => if fails = 1 then none else some pout) id (fun _ => t) ds with
+  | none => some "panic"
+  | some o =>
+    some s!"ok tg={showList2 toString o.targets} w={showList toString o.weights} fn={",".intercalate o.featureNames} tn={",".intercalate o.targetNames}"
+
+def handle (toks : List String) : String :=
+  let r := match toks with
+    | "std" :: rest => handleStd rest
+    | "minmax" :: rest => handleMinMax rest
+    | "maxabs" :: rest => handleMaxAbs rest
+    | "norm" :: rest => handleNorm rest
+    | "whiten" :: rest => handleWhiten rest
+    | "ds" :: rest => handleDs rest
+    | _ => none
+  r.getD "bad-op"
 
 end LinfaSpec.Drv.C16
